@@ -116,6 +116,7 @@ impl<E: Pairing> MultilinearPC<E> {
         polynomial: &impl MultilinearExtension<E::ScalarField>,
     ) -> Commitment<E> {
         let nv = polynomial.num_vars();
+        assert_eq!(nv, ck.nv, "Invalid size of polynomial");
         let scalars: Vec<_> = polynomial
             .to_evaluations()
             .into_iter()
